@@ -109,6 +109,11 @@ def strategy(tier):
         # ::1 cannot be bound on this host (IPv6 administratively disabled);
         # the kernel's IPv6 socket tables are what they are all the same
         no_ipv6_bind=st.sampled_from([False, False, True]),
+        other_first=st.booleans(),
+        # a non-socket descriptor closes just before OS access number k of the
+        # second system-wide call (between the listing of the fd directory and
+        # the readlink of that entry, among others)
+        closes=st.lists(st.tuples(st.integers(0, 7), st.integers(0, 400)), max_size=2),
     ))
 
 
@@ -199,6 +204,14 @@ def build(case):
     k.set_file("/proc/net/udp6", render_inet(inet, 6, "udp"))
     k.set_file("/proc/net/unix", render_unix(unix, case["odd_unix_lines"]))
     tables = {pid: {} for pid in PIDS}
+    others = []
+    if case.get("other_first", False):
+        # non-socket descriptors listed before the sockets
+        for pi, tgt in case["other_fds"]:
+            t = tables[PIDS[pi]]
+            fd = 600 + len(t)
+            t[fd] = simk.FD(tgt)
+            others.append((PIDS[pi], fd))
     for s in inet + unix:
         real = []
         for pi, fd in s["holders"]:
@@ -208,10 +221,13 @@ def build(case):
             t[fd] = simk.FD("socket:[%d]" % s["inode"])
             real.append((PIDS[pi], fd))
         s["real_holders"] = real
-    for pi, tgt in case["other_fds"]:
-        t = tables[PIDS[pi]]
-        fd = 900 + len(t)
-        t[fd] = simk.FD(tgt)
+    if not case.get("other_first", False):
+        for pi, tgt in case["other_fds"]:
+            t = tables[PIDS[pi]]
+            fd = 900 + len(t)
+            t[fd] = simk.FD(tgt)
+            others.append((PIDS[pi], fd))
+    k.psv_other_fds = others
     unreadable = {PIDS[i] for i in case["unreadable"]}
     for pid in PIDS:
         k.spawn(pid, fds=tables[pid], starttime=100 + pid,
@@ -325,8 +341,34 @@ def run_case(case):
                 except Exception as e:  # noqa: BLE001
                     raise Violation("bad-kind", f"kind={bad!r} raised {e!r}, expected ValueError") from None
                 raise Violation("bad-kind", f"kind={bad!r} accepted")
+        # ---- a descriptor that is not a socket closes during the scan
+        sysw2 = None
+        if k.psv_other_fds and case.get("closes"):
+            n0 = len(k.log)
+            psutil.net_connections(kind)
+            n_acc = len(k.log) - n0
+            saved = {p_: dict(k.procs[p_].fds) for p_ in PIDS}
+            faults = []
+            for idx, kk in case["closes"]:
+                vp, vfd = k.psv_other_fds[idx % len(k.psv_other_fds)]
+                faults.append(simk.Fault(kk % max(n_acc, 1), "closefd", vp, vfd))
+            k.arm(faults)
+            try:
+                sysw2 = psutil.net_connections(kind)
+            except Exception as e:  # noqa: BLE001
+                import traceback
+                raise Violation("system-wide-exception",
+                                f"kind={kind}, non-socket fd closing at access(es) {[f.k for f in faults]}: {e!r} "
+                                + traceback.format_exc()[-400:]) from None
+            finally:
+                k.arm([])
+                for p_, fds_ in saved.items():
+                    k.procs[p_].fds = fds_
+            labels.add("non-socket-fd-closing-mid-scan")
     fixed, alts = expected_rows(inet, unix, unreadable, kind)
     compare(sysw, fixed, alts, f"net_connections({kind!r})")
+    if sysw2 is not None:
+        compare(sysw2, fixed, alts, f"net_connections({kind!r}) while a non-socket descriptor closes")
     if perp is not None:
         for r in perp:
             if r._fields != ("fd", "family", "type", "laddr", "raddr", "status"):
